@@ -1741,6 +1741,24 @@ func (e *Engine) builtin(st *State, in ssa.CallInstruction, name string, args []
 				o.Keys, o.Vals = nil, nil
 			}
 		}
+	case "String":
+		// unsafe.String(ptr *byte, len)
+		p, ok := args[0].(PtrV)
+		n := args[1].(*Term)
+		if !ok || n.Op != OpConst || len(p.Path) != 1 || p.Path[0].T != nil {
+			e.fail("unsafe.String with unsupported arguments")
+		}
+		ln := int(n.SignedVal())
+		if ln == 0 {
+			e.setResult(st, in, StrV{})
+			break
+		}
+		arr := e.obj(st, p.Obj).Val.(ArrayV)
+		bs := make([]*Term, ln)
+		for i := 0; i < ln; i++ {
+			bs[i] = arr.E[p.Path[0].I+i].(*Term)
+		}
+		e.setResult(st, in, StrV{B: bs})
 	case "recover":
 		e.setResult(st, in, IfaceV{})
 	case "ssa:wrapnilchk":
